@@ -131,6 +131,15 @@ def arrays_close(a, b, rtol):
         return bool(np.all((np.abs(a - b) <= rtol * np.maximum(np.abs(a), np.abs(b))) | (np.isnan(a) & np.isnan(b)) | (a == b)))
 
 
+def _first_array_diff(a, b, rtol, columns):
+    if a.shape != b.shape:
+        return f"shape {a.shape} vs {b.shape}"
+    for idx in np.ndindex(a.shape):
+        if not close(a[idx], b[idx], rtol):
+            return f"record {idx[0]}, {columns[idx[-1]] if a.ndim == 2 else idx}: {a[idx]!r} vs {b[idx]!r}"
+    return "?"
+
+
 def parameters_diff(p0, p1, rtol=RTOL_TEXT):
     l0, l1 = list(p0.labels), list(p1.labels)
     if l0 != l1:
@@ -411,7 +420,8 @@ def build_result_scheme(case):
         params = G.make_parameters(
             [
                 {"label": "k.1", "value": 0.5 + 0.1 * rng.uniform()},
-                {"label": "k.2", "value": 0.2, "minimum": 0.0, "maximum": 5.0},
+                # a slow component (ns lifetime on a ps axis): full-precision fixed-notation repr with leading zeros
+                {"label": "k.2", "value": 0.0002 + 0.0007 * rng.uniform(), "minimum": 0.0, "maximum": 5.0},
                 {"label": "ic.1", "value": 1.0, "vary": False},
                 {"label": "ic.2", "value": 0.0, "vary": False},
                 {"label": "irf.center", "value": 0.3},
@@ -446,12 +456,12 @@ def _compare_result(orig, expect_data, loaded, suffix, rtol, strict):
         check(d is None, cl("result.parameters"), lambda: f"{name}: {d}")
     h0, h1 = orig.parameter_history, loaded.parameter_history
     check(
-        list(map(str, h0.parameter_labels)) == list(map(str, h1.parameter_labels))
-        and h0.number_of_records == h1.number_of_records
-        and arrays_close(np.array(h0.parameters), np.array(h1.parameters), rtol),
+        list(map(str, h0.parameter_labels)) == list(map(str, h1.parameter_labels)) and h0.number_of_records == h1.number_of_records,
         cl("result.parameter_history"),
-        lambda: f"{list(h0.parameter_labels)} {np.array(h0.parameters)!r} vs {list(h1.parameter_labels)} {np.array(h1.parameters)!r}",
+        lambda: f"parameter_history: labels {list(h0.parameter_labels)} x {h0.number_of_records} records vs {list(h1.parameter_labels)} x {h1.number_of_records}",
     )
+    a0, a1 = np.array(h0.parameters, dtype=float), np.array(h1.parameters, dtype=float)
+    check(arrays_close(a0, a1, rtol), cl("result.parameter_history"), lambda: "parameter_history: " + _first_array_diff(a0, a1, rtol, list(map(str, h0.parameter_labels))))
     o0, o1 = orig.optimization_history.data, loaded.optimization_history.data
     check(
         list(o0.columns) == list(o1.columns) and o0.index.name == o1.index.name and list(o0.index) == list(o1.index) and arrays_close(o0.values, o1.values, rtol),
@@ -517,13 +527,8 @@ def prop_result(case):
         check_paths(abs_folder / "result.yml", abs_folder, pclause)
         check_paths(abs_folder / "scheme.yml", abs_folder, pclause)
 
-        try:
-            with expect_ok("result.load"):
-                loaded = load_result(target, **kwargs)
-        except Violation as v:
-            if flt is not None and ("There is no file" in v.message or "No such file" in v.message):
-                raise Violation("result.load_filtered", v.message) from v
-            raise
+        with expect_ok("result.load"):
+            loaded = load_result(target, **kwargs)
         compare_result(result, expect_data, loaded)
 
         # move the folder, change the cwd, load again
